@@ -2,7 +2,13 @@
 #[cfg(kani)]
 mod util;
 #[cfg(kani)]
+mod fixtures;
+#[cfg(kani)]
 mod c09;
+#[cfg(kani)]
+mod c01;
+#[cfg(kani)]
+mod c03;
 #[cfg(kani)]
 mod c07;
 #[cfg(kani)]
@@ -11,5 +17,7 @@ mod c10;
 mod c11;
 #[cfg(kani)]
 mod c13;
+#[cfg(kani)]
+mod c15;
 #[cfg(kani)]
 mod c17;
